@@ -233,6 +233,28 @@ impl C12 {
             }
             rep.count("gen.many_distinct_regexes", 1);
         }
+        // a rules file that is evaluated on one document and SKIPs as a whole on another (all its
+        // rules are guarded by a key the second document lacks): FAIL then SKIP must stay FAIL
+        if wl.docs.len() > 1 && r.chance(1, 5) {
+            let key = match &wl.docs[0].0 {
+                J::Map(kv) if !kv.is_empty() => Some(kv[r.usize(kv.len())].0.clone()),
+                _ => None,
+            };
+            if let Some(gk) = key {
+                if crate::rules::is_ident_pub(&gk) {
+                    let victim = 1 + r.usize(wl.docs.len() - 1);
+                    if let J::Map(kv) = &mut wl.docs[victim].0 {
+                        kv.retain(|(k, _)| *k != gk);
+                    }
+                    let t = r.usize(wl.progs.len());
+                    for rule in wl.progs[t].rules.iter_mut() {
+                        rule.when.insert(0, crate::rules::Line { alts: vec![crate::rules::Clause::Cmp(crate::rules::Cmp { not: false, q: crate::rules::Query { some: false, parts: vec![crate::rules::Part::Key(gk.clone())] }, op: crate::rules::Op::Exists, opnot: false, rhs: None, msg: None })] });
+                    }
+                    wl.progs[t].default_lines.clear();
+                    rep.count("gen.rules_file_skips_on_one_document", 1);
+                }
+            }
+        }
         // two data files with byte-identical content (a copied template): still two pairs
         if wl.docs.len() > 1 && r.chance(1, 5) {
             wl.docs[1] = wl.docs[0].clone();
@@ -567,11 +589,34 @@ impl C12 {
             let mut cur_data: Option<usize> = None;
             let mut seen = 0usize;
             let mut case_in_suite = 0usize;
+            // the counters in the attributes: a suite's `failures` / `errors` are zero exactly
+            // when none of ITS test cases failed / erred, and the totals are the sums
+            let num = |tag: &str, name: &str| -> Option<u64> { attr(tag, name).and_then(|v| v.parse().ok()) };
+            let mut totals: Option<(u64, u64)> = None;
+            let mut sum = (0u64, 0u64);
+            // (declared failures, declared errors, failing cases seen, erring cases seen, name)
+            let mut cur_suite: Option<(u64, u64, u64, u64, String)> = None;
+            let mut close_suite = |cs: &mut Option<(u64, u64, u64, u64, String)>, out: &mut Vec<(String, String)>| {
+                if let Some((f, e, sf, se, name)) = cs.take() {
+                    if (f == 0) != (sf == 0) || (e == 0) != (se == 0) {
+                        out.push(("junit-suite-counters".into(), format!("JUnit suite {} declares failures={} errors={} but {} of its test cases failed and {} erred", name.rsplit('/').next().unwrap_or(""), f, e, sf, se)));
+                    }
+                }
+            };
             let mut rest = text.as_str();
             while let Some(p) = rest.find('<') {
                 rest = &rest[p..];
                 let end = rest.find('>').unwrap_or(rest.len() - 1);
                 let tag = &rest[..=end];
+                if tag.starts_with("<testsuites ") {
+                    totals = Some((num(tag, "failures").unwrap_or(0), num(tag, "errors").unwrap_or(0)));
+                } else if tag.starts_with("<testsuite ") {
+                    close_suite(&mut cur_suite, &mut out);
+                    let (f, e) = (num(tag, "failures").unwrap_or(0), num(tag, "errors").unwrap_or(0));
+                    sum.0 += f;
+                    sum.1 += e;
+                    cur_suite = Some((f, e, 0, 0, attr(tag, "name").unwrap_or_default()));
+                }
                 if tag.starts_with("<testsuite ") {
                     let name = attr(tag, "name").unwrap_or_default();
                     cur_data = match &payload_order {
@@ -588,6 +633,13 @@ impl C12 {
                         Some("error") => "ERROR",
                         _ => "FAIL",
                     };
+                    if let Some(cs) = cur_suite.as_mut() {
+                        match status {
+                            "FAIL" => cs.2 += 1,
+                            "ERROR" => cs.3 += 1,
+                            _ => {}
+                        }
+                    }
                     let ri = if d.kind.starts_with("payload") {
                         // RULES_STDIN[k] is the k-th rules text of the payload
                         self.payload_rules_order(scn, d).get(case_in_suite).copied()
@@ -606,6 +658,12 @@ impl C12 {
                     }
                 }
                 rest = &rest[end + 1..];
+            }
+            close_suite(&mut cur_suite, &mut out);
+            if let Some((tf, te)) = totals {
+                if tf != sum.0 || te != sum.1 {
+                    out.push(("junit-total-counters".into(), format!("JUnit totals failures={} errors={} are not the sums of the suites' ({} / {})", tf, te, sum.0, sum.1)));
+                }
             }
             if seen != scn.rules.len() * scn.data.len() {
                 out.push(("report-count".into(), format!("{} JUnit test cases for {} pairs", seen, scn.rules.len() * scn.data.len())));
